@@ -4,6 +4,8 @@ after `K` sweeps `residu ≤ a^K · (1−a)` unless the stopping test has fired 
 `solver='diteration'` is within `2·residu/(1−a)²` of the PageRank vector (`diteration_close`).
 -/
 import SkNet.Lemmas.RankClose
+import Mathlib.Order.Interval.Finset.Nat
+import Mathlib.Algebra.BigOperators.Intervals
 
 open Finset
 
@@ -111,14 +113,20 @@ theorem sweep_invs {g : Graph ℚ} (hg : g.Nonneg) (hr : g.InRange) (hs : g.RowS
     DInv g a F0 (diterSweep g a (1 - a) st) ∧ DMass g (diterSweep g a (1 - a) st) :=
   ⟨hI.activate hr (1 - a) _, hM.activate hg hr hs ha _ hI⟩
 
+theorem diterLoop_succ (g : Graph ℚ) (a r tol : ℚ) (k : ℕ) (st : DState ℚ) :
+    diterLoop g a r tol (k + 1) st
+      = if (diterSweep g a r st).residu < tol * r then diterSweep g a r st
+        else diterLoop g a r tol k (diterSweep g a r st) := rfl
+
 /-- ★ `diter_budget` : the loop with `n_iter = K` ends with `residu < tol·(1−a)` (stopping test) or with
     `residu ≤ a^K · residu₀`; in both cases the invariants hold -/
 theorem diterLoop_budget {g : Graph ℚ} (hg : g.Nonneg) (hr : g.InRange) (hs : g.RowStoch)
     (hP : SubStoch g.n (entry g)) {a : ℚ} (ha : 0 ≤ a) (ha1 : a ≤ 1) (tol : ℚ) {F0 : ℕ → ℚ} (K : ℕ) {st : DState ℚ}
     (hI : DInv g a F0 st) (hM : DMass g st) :
-    let out := diterLoop g a (1 - a) tol K st
-    DInv g a F0 out ∧ DMass g out ∧ (out.residu < tol * (1 - a) ∨ out.residu ≤ a ^ K * st.residu) ∧
-      (0 < K → out.residu ≤ a * st.residu) := by
+    DInv g a F0 (diterLoop g a (1 - a) tol K st) ∧ DMass g (diterLoop g a (1 - a) tol K st) ∧
+      ((diterLoop g a (1 - a) tol K st).residu < tol * (1 - a) ∨
+        (diterLoop g a (1 - a) tol K st).residu ≤ a ^ K * st.residu) ∧
+      (0 < K → (diterLoop g a (1 - a) tol K st).residu ≤ a * st.residu) := by
   induction K generalizing st with
   | zero =>
     refine ⟨hI, hM, Or.inr ?_, fun h => absurd h (lt_irrefl 0)⟩
@@ -126,13 +134,11 @@ theorem diterLoop_budget {g : Graph ℚ} (hg : g.Nonneg) (hr : g.InRange) (hs : 
   | succ k ih =>
     have hc := sweep_contracts hg hr hs hP ha ha1 hI hM
     obtain ⟨hI', hM'⟩ := sweep_invs hg hr hs ha hI hM
-    have hres0 : 0 ≤ st.residu := by rw [hM.mass]; exact sum_nonneg fun i _ => hM.nonnegF i
-    show let out := (if (diterSweep g a (1 - a) st).residu < tol * (1 - a) then diterSweep g a (1 - a) st
-        else diterLoop g a (1 - a) tol k (diterSweep g a (1 - a) st)); _
+    rw [diterLoop_succ]
     by_cases hstop : (diterSweep g a (1 - a) st).residu < tol * (1 - a)
-    · simp only [hstop, if_true]
+    · rw [if_pos hstop]
       exact ⟨hI', hM', Or.inl hstop, fun _ => hc⟩
-    · simp only [hstop, if_false]
+    · rw [if_neg hstop]
       obtain ⟨hI2, hM2, hor, hmono⟩ := ih hI' hM'
       refine ⟨hI2, hM2, ?_, fun _ => ?_⟩
       · rcases hor with h | h
